@@ -539,7 +539,11 @@ pub fn vcf_records(set: &SortedSet, version: VcfVersion) -> Vec<vcf::variant::Re
                 .set_reference_bases(bases);
             match end {
                 Some(e) => {
-                    b = b.set_alternate_bases(AlternateBases::from(vec![String::from("<DEL>")]));
+                    // before 4.5 every other END record is a gVCF-style reference block (no ALT at
+                    // all): INFO END gives the end whatever ALT holds
+                    if version == VcfVersion::V45 || r.shape & 8 == 0 {
+                        b = b.set_alternate_bases(AlternateBases::from(vec![String::from("<DEL>")]));
+                    }
                     let info: vcf::variant::record_buf::Info = if version == VcfVersion::V45 {
                         // 4.5: span from SVLEN (positive, one per ALT)
                         [(String::from(key::SV_LENGTHS), Some(Value::Array(Array::Integer(vec![Some((e - r.start + 1) as i32)]))))].into_iter().collect()
